@@ -308,13 +308,19 @@ decoding a name at `o` with `Name.readName` yields exactly those labels.  `H` is
 condition on the runs `(start, end)` the layout consists of (its footprint); it is what allows
 bytes *outside* all footprints — a reserved `Place` — to be overwritten later
 (`ptrInvH_overwrite` in `Proofs/C02.lean`). -/
+def LabelsOK (ls : List Bytes) : Prop := ∀ l ∈ ls, 1 ≤ l.length ∧ l.length ≤ 63
+
+/-- a candidate that can never match a name: its bytes are not the flat form of any list of proper
+labels (the server's `QueriesEmitAndCount::emit` stores the whole question — name, root octet, type,
+class — as one such candidate) -/
+def DeadCand (bs : Bytes) : Prop := ∀ ls, LabelsOK ls → bs ≠ flat ls
+
 def PtrInvH (H : Nat × Nat → Prop) (e : Enc) : Prop :=
-  ∀ p ∈ e.ptrs, ∃ ls en F, p.2 = flat ls ∧ Laid e.buf p.1 p.1 ls en F ∧ en ≤ e.offset ∧ ∀ iv ∈ F, H iv
+  ∀ p ∈ e.ptrs, (∃ ls en F, p.2 = flat ls ∧ Laid e.buf p.1 p.1 ls en F ∧ en ≤ e.offset ∧ ∀ iv ∈ F, H iv) ∨
+    (p.1 < e.offset ∧ DeadCand p.2)
 
 /-- `PtrInvH` without a condition on the footprints -/
 def PtrInv (e : Enc) : Prop := PtrInvH (fun _ => True) e
-
-def LabelsOK (ls : List Bytes) : Prop := ∀ l ∈ ls, 1 ≤ l.length ∧ l.length ≤ 63
 
 /-- what a successful `Name::emit` of the labels `ls` establishes -/
 structure NamePost (H : Nat × Nat → Prop) (e : Enc) (ls : List Bytes) (e' : Enc) : Prop where
@@ -384,9 +390,11 @@ theorem laid_root {e : Enc} {ls : List Bytes} {buf3 : Bytes} (hlab : LabelsOK ls
 
 theorem PtrInvH.old {H : Nat × Nat → Prop} {e : Enc} {buf' : Bytes} {off' : Nat} {p : Nat × Bytes}
     (hinv : PtrInvH H e) (hp : p ∈ e.ptrs) (x : Bytes) (hb : buf' = e.buf ++ x) (ho : e.offset ≤ off') :
-    ∃ ls en F, p.2 = flat ls ∧ Laid buf' p.1 p.1 ls en F ∧ en ≤ off' ∧ ∀ iv ∈ F, H iv := by
-  obtain ⟨ls, en, F, h1, h2, h3, h4⟩ := hinv p hp
-  exact ⟨ls, en, F, h1, hb ▸ h2.append (Nat.le_refl _) x, by omega, h4⟩
+    (∃ ls en F, p.2 = flat ls ∧ Laid buf' p.1 p.1 ls en F ∧ en ≤ off' ∧ ∀ iv ∈ F, H iv) ∨
+      (p.1 < off' ∧ DeadCand p.2) := by
+  rcases hinv p hp with ⟨ls, en, F, h1, h2, h3, h4⟩ | ⟨hlt, hd⟩
+  · exact Or.inl ⟨ls, en, F, h1, hb ▸ h2.append (Nat.le_refl _) x, by omega, h4⟩
+  · exact Or.inr ⟨by omega, hd⟩
 
 theorem namePost_of_loopPost {H : Nat × Nat → Prop} {e e2 e' : Enc} {ls : List Bytes} {flag : Bool}
     (hlab : LabelsOK ls) (happ : e.offset = e.buf.length) (hinv : PtrInvH H e)
@@ -423,7 +431,7 @@ theorem namePost_of_loopPost {H : Nat × Nat → Prop} {e e2 e' : Enc} {ls : Lis
         rcases List.mem_append.1 hp' with hp' | hp'
         · exact hinv.old hp' (flat ls ++ [0]) (by rw [hbuf]; simp) (by omega)
         · obtain ⟨f', b', h1, _, h3⟩ := hn p hp'
-          refine ⟨b', e.buf.length + (flat ls).length + 1,
+          refine Or.inl ⟨b', e.buf.length + (flat ls).length + 1,
             [(e.buf.length + (flat f').length, e.buf.length + (flat ls).length + 1)], by rw [h3], ?_, by omega, ?_⟩
           · rw [h3]; exact laid_root hlab hbuf f' b' h1
           · intro iv hiv
@@ -436,7 +444,9 @@ theorem namePost_of_loopPost {H : Nat × Nat → Prop} {e e2 e' : Enc} {ls : Lis
   | hit f b loc hls hbne hmem hloc hbuf hoff hfit hmax hcanon hne hptrs =>
     simp only [ERes.ok.injEq, true_and] at h
     subst h
-    obtain ⟨ls', en, F0, h1, h2, h3, h4⟩ := hinv _ hmem
+    have hlabb : LabelsOK b := fun l hl => hlab l (by rw [hls]; simp [hl])
+    rcases hinv _ hmem with ⟨ls', en, F0, h1, h2, h3, h4⟩ | ⟨_, hdead⟩
+    case inr => exact absurd rfl (hdead b hlabb)
     simp only at h1 h2
     have := flat_inj h1
     subst this
@@ -457,7 +467,7 @@ theorem namePost_of_loopPost {H : Nat × Nat → Prop} {e e2 e' : Enc} {ls : Lis
       · exact hinv.old hp' (flat f ++ [192 + loc / 256, loc % 256]) (by simp [hbuf]) (by omega)
       · obtain ⟨f', b', h1', h2', h3'⟩ := hp'
         obtain ⟨mid, hm1, hm2⟩ := split_of_append_eq (h1'.symm.trans hls) (by omega)
-        refine ⟨b', e.buf.length + (flat f).length + 2,
+        refine Or.inl ⟨b', e.buf.length + (flat f).length + 2,
           (e.buf.length + (flat f').length, e.buf.length + (flat f).length + 2) :: F0, by rw [h3'], ?_, by omega, ?_⟩
         · rw [h3', hm2]
           exact laid_hit happ hlabf hbuf hloc h2 h3 f' mid hm1
